@@ -85,7 +85,14 @@ def hot_urls(comp, s):
 
 
 QUERY_EXTRA = ["%62=1&a=2", "b=1&%61=2", "utm%5Fsource=x&a=1", "utm_source=x&a=1", "a=1&a=%31", "A=1&a=1", "x=%20&x= ", "b&a", "b=&a=", "%3D=1&==2",
-               "a=1&amp;b=2", "a=1&amp%3Bb=2", "hl=fr&gl=us&a=1", "HL=fr"]
+               "a=1&amp;b=2", "a=1&amp%3Bb=2", "hl=fr&gl=us&a=1", "HL=fr",
+               # values that only differ by case / escaping of a filtered combination
+               "ref=%46b&a=1", "ref=Fb&a=1", "ref=fb&a=1", "REF=FB&a=1", "outputType=AMP&a=1", "outputtype=%61mp&a=1", "spref=TW", "m=1&M=0"]
+# redirection hints (escaped targets, in the query and - where they mean nothing - in the fragment), control characters next to whitespace
+REDIRECTS = ["http://a.com/#x&url=http%3A%2F%2Fb.com%2F%3Fa%3D1%26b%3D2", "http://a.com/p?url=http%3A%2F%2Fb.com%2F%3Fa%3D1%26b%3D2#x&u=http%3A%2F%2Fc.com",
+             "http://a.com/?next=%2Fp%3Fa%3D1%26b%3D2", "http://a.com/r?u=https%3A%2F%2FB.com%2F%2541%3Fq%3D%2526", "a.com/#!/x?url=http%3A%2F%2Fb.com",
+             "https://www.google.com/url?q=https%3A%2F%2Ffr.b.co.uk%2Fa%23f&sa=D", "http://a.com/?url=http%3A%2F%2Fb.com%2F%23frag%26x%3D1"]
+WRAPS = [("\x08 ", ""), (" \x00", " "), ("\x1b\t", "\x7f "), ("", " \x01"), ("\x00 \x00 ", "")]
 HOSTS_EXTRA = ["fr.a.com", "fr-FR.a.com", "www.fr.a.com", "m.a.com", "amp.a.com", "amp-x.a.com", "a.co.uk", "A.COM:8080", "youtube.com", "www.facebook.com", "fr.facebook.com"]
 
 
@@ -135,6 +142,10 @@ def main():
         for tail in ("", "/", "/index.html", "/a/", "/a/../b", "/a%2Fb", "/#!/x", "/?"):
             urls.append("http://" + h + tail)
             urls.append(h + tail)
+    urls.extend(REDIRECTS)
+    for pre, post in WRAPS:
+        for u in ("http://www.A.com/a/b/?utm_source=x&b=1", "a.com/x", "HTTPS://fr.a.com:443/p/index.html#f") + tuple(REDIRECTS[:3]):
+            urls.append(pre + u + post)
     # spelling variants of the same URL end up in the same shard so that collision classes are complete
     urls.sort(key=lambda u: (u.lower().replace("%", ""), u))
     nsh = a.jobs * 2
